@@ -275,6 +275,11 @@ def _run_single(ctx, case, pair, prefix):
         return
     if not _check_buffers(ctx, case, bufs, copies, ids, prefix):
         return
+    if case["seed"] % 4 == 1:
+        # the receiving application asserts its role once more before it reads (examples do this at
+        # the top of their receive functions): what has arrived stays where it is
+        rx.listen = True
+        ctx.count("listen_asserted_again_before_reading")
     blind = case.get("drain") == "blind" and case.get("rx_kind", "full") == "full"
     got = _drain(rx, blind)
     if blind:
